@@ -46,35 +46,45 @@ Proof.
   destruct args as [|[] [|[] [|]]]; try (inversion H; reflexivity); discriminate.
 Qed.
 
+(* what may crash besides a type-directed panic: OpArrayRepeat without the
+   count guard (the tree at HEAD) *)
+Definition crash_ok (c : crash) : Prop := c = CType \/ (repeat_guarded = false /\ c = CHost).
+
+Lemma arr_repeat_crash g r l c : arr_repeat g r l = PCrash c -> g = false /\ c = CHost.
+Proof.
+  unfold arr_repeat. destruct (go_int_exact r) as [n|]; [|discriminate]. destruct (n <? 0)%Z; [discriminate|].
+  destruct (repeat_too_large (List.length l) n); [|discriminate]. destruct g; [discriminate|]. intro H; inversion H. auto.
+Qed.
+
 Lemma pure_sem_crash o arg cs ls gs args c :
   pure_sem o arg cs ls gs args = PCrash c ->
-  c = CType \/
+  crash_ok c \/
   (c = COperand /\
    ((o = Constant /\ nth_error cs (N.to_nat arg) = None) \/
     (o = GetGlobal /\ nth_error gs (N.to_nat arg) = None) \/
     (o = GetLocal /\ nth_error ls (N.to_nat arg) = None))).
 Proof.
   intro H. destruct o; simpl in H;
-    try (left; inversion H; reflexivity);
+    try (left; left; inversion H; reflexivity);
     try discriminate;
-    try (left; eapply str2_crash; eassumption);
-    try (left; eapply num2_crash; [|eassumption]; intros l r c' Hc; cbv beta in Hc;
+    try (left; left; eapply str2_crash; eassumption);
+    try (left; left; eapply num2_crash; [|eassumption]; intros l r c' Hc; cbv beta in Hc;
          repeat match type of Hc with context [if ?b then _ else _] => destruct b end; discriminate).
   - destruct (nth_error cs (N.to_nat arg)) eqn:E; [discriminate|]. inversion H. right. split; auto.
   - destruct (nth_error gs (N.to_nat arg)) eqn:E; [discriminate|]. inversion H. right. split; auto.
   - destruct (nth_error ls (N.to_nat arg)) eqn:E; [discriminate|]. inversion H. right. split; auto.
-  - left. destruct args as [|[] [|]]; try discriminate; inversion H; reflexivity.
-  - left. destruct args as [|[] [|]]; try discriminate; inversion H; reflexivity.
-  - left. destruct args as [|r [|l [|]]]; try (inversion H; reflexivity).
+  - left. left. destruct args as [|[] [|]]; try discriminate; inversion H; reflexivity.
+  - left. left. destruct args as [|[] [|]]; try discriminate; inversion H; reflexivity.
+  - left. left. destruct args as [|r [|l [|]]]; try (inversion H; reflexivity).
     destruct (val_equals l r); [discriminate|inversion H; reflexivity].
-  - left. destruct args as [|r [|l [|]]]; try (inversion H; reflexivity).
+  - left. left. destruct args as [|r [|l [|]]]; try (inversion H; reflexivity).
     destruct (val_equals l r); [discriminate|inversion H; reflexivity].
-  - left. destruct args as [|[] [|[] [|]]]; try discriminate; inversion H; reflexivity.
-  - left. destruct args as [|[] [|[] [|]]]; try (inversion H; reflexivity).
-    destruct (go_int_exact f); [|discriminate]. destruct (z <? 0)%Z; discriminate.
-  - left. destruct (map_pairs args []); [discriminate|inversion H; reflexivity].
-  - left. destruct args as [|i [|l [|]]]; try (inversion H; reflexivity). eapply index_value_crash; eauto.
-  - left. destruct args as [|b [|a [|l [|]]]]; try (inversion H; reflexivity). eapply slice_value_crash; eauto.
+  - left. left. destruct args as [|[] [|[] [|]]]; try discriminate; inversion H; reflexivity.
+  - left. destruct args as [|[] [|[] [|]]]; try (left; inversion H; reflexivity).
+    right. apply (arr_repeat_crash _ _ _ _ H).
+  - left. left. destruct (map_pairs args []); [discriminate|inversion H; reflexivity].
+  - left. left. destruct args as [|i [|l [|]]]; try (inversion H; reflexivity). eapply index_value_crash; eauto.
+  - left. left. destruct args as [|b [|a [|l [|]]]]; try (inversion H; reflexivity). eapply slice_value_crash; eauto.
 Qed.
 
 Lemma set_index_check_crash args c : set_index_check args = Some (PCrash c) -> c = CType.
@@ -122,7 +132,7 @@ Section Safe.
     | Running s' => vinv s'
     | Halted _ => False
     | Failed _ => True
-    | Crashed c => c = CType
+    | Crashed c => crash_ok c
     end.
 
   Lemma mk_inv t a' s' : succ_cond t a' -> ip s' = t -> frame_ok s' -> amatch a' (ostack s') -> vinv s'.
@@ -167,7 +177,7 @@ Section Safe.
                  destruct (pure_sem o a c l g x) as [v|e|c0] eqn:EP;
                  [ eapply with_stack_good; [exact Hfr|exact Hsc|cbn [amatch List.length]; lia]
                  | exact I
-                 | apply pure_sem_crash in EP; destruct EP as [->|[-> EP]]; [reflexivity|exfalso];
+                 | apply pure_sem_crash in EP; destruct EP as [EP|[-> EP]]; [exact EP|exfalso];
                    destruct EP as [[E1 E2]|[[E1 E2]|[E1 E2]]]; try discriminate E1;
                    apply nth_error_None in E2; unfold bc, info_of in Hop; simpl in Hop; lia ]
              end).
@@ -189,7 +199,7 @@ Section Safe.
         destruct (set_index_check _) as [[v|e|c0]|] eqn:ES.
         + eapply mk_inv; [exact Hsc|reflexivity|exact Hfr|cbn [amatch ostack]; lia].
         + exact I.
-        + apply set_index_check_crash in ES. exact ES.
+        + apply set_index_check_crash in ES. left. exact ES.
         + eapply mk_inv; [exact Hsc|reflexivity|exact Hfr|cbn [amatch ostack]; lia]. }
     destruct a as [k|k].
     - (* a plain height *)
@@ -205,7 +215,7 @@ Section Safe.
       + (* JumpOnFalse *)
         destruct (lc + 1 <=? k) eqn:EK; [|discriminate]. inversion Hx; subst succs; clear Hx. simpl.
         destruct (ostack s) as [|v rest] eqn:ES; [simpl in Hm; lia|].
-        destruct v; try reflexivity. simpl in Hm.
+        destruct v; try (left; reflexivity). simpl in Hm.
         destruct b.
         * eapply mk_inv; [apply Hsucc; left; reflexivity|reflexivity|exact Hfr|simpl; lia].
         * eapply mk_inv; [apply Hsucc; right; left; reflexivity|reflexivity|exact Hfr|simpl; lia].
@@ -213,7 +223,7 @@ Section Safe.
         destruct (lc + 3 <=? k) eqn:EK; [|discriminate]. inversion Hx; subst succs; clear Hx. simpl.
         destruct (List.length (ostack s) <? 3)%nat eqn:EU; [apply Nat.ltb_lt in EU; lia|].
         destruct (zero_step (ostack s)); [exact I|].
-        destruct (step_range arg (ostack s)) as [stk|] eqn:ER; [|reflexivity].
+        destruct (step_range arg (ostack s)) as [stk|] eqn:ER; [|left; reflexivity].
         unfold step_range in ER.
         destruct (ostack s) as [|[] [|[] [|[] rest]]]; try discriminate. inversion ER; subst stk; clear ER.
         eapply with_stack_good; [exact Hfr|apply Hsucc; left; reflexivity|].
@@ -224,7 +234,7 @@ Section Safe.
       + (* IterRange *)
         destruct (lc + 2 <=? k) eqn:EK; [|discriminate]. inversion Hx; subst succs; clear Hx. simpl.
         destruct (List.length (ostack s) <? 2)%nat eqn:EU; [apply Nat.ltb_lt in EU; lia|].
-        destruct (iter_range arg (ostack s)) as [stk|] eqn:ER; [|reflexivity].
+        destruct (iter_range arg (ostack s)) as [stk|] eqn:ER; [|left; reflexivity].
         unfold iter_range in ER.
         destruct (ostack s) as [|[] [|it rest]]; try discriminate.
         destruct (float_to_Z f) as [z|]; [|discriminate]. destruct (z <? 0)%Z; [discriminate|].
@@ -250,7 +260,7 @@ Section Safe.
     | Running s' => vinv s'
     | Halted s' => s' = s /\ ip s = codelen bc /\ ostack s = []
     | Failed _ => True
-    | Crashed c => c = CType
+    | Crashed c => crash_ok c
     end.
   Proof.
     intros [Hfr [[Hip Hst]|[Hip (a & Ha & Hm)]]].
@@ -291,8 +301,9 @@ Theorem wf_vm_safe_partial : forall (p : program), WF (info_of p) ->
     | Running _ | Failed _ => True
     (* the program ends exactly at the end of the code, with sp = LocalCount *)
     | Halted s' => ip s' = N.of_nat (List.length (pcode p)) /\ sp_of s' = plcount p
-    (* no underflow, no out-of-range constant/global/local, no bad fetch *)
-    | Crashed c => c = CType
+    (* no underflow, no out-of-range constant/global/local, no bad fetch; a host
+       crash only from OpArrayRepeat while its count is unguarded (crash_ok) *)
+    | Crashed c => crash_ok c
     end.
 Proof.
   intros p (instrs & h & HD & HS & HE & HF) s HR.
